@@ -15,26 +15,10 @@
 // specific language governing permissions and limitations
 // under the License.
 
-//go:build verif
+//go:build !verif
 
 package aucoalesce
 
-// VerifResetCaches replaces the package-level user and group caches with
-// fresh ones, so that consecutive runs of a deterministic simulation do not
-// share state. It only exists in builds with the "verif" tag and must not be
-// called while ID resolution is in progress.
-func VerifResetCaches() {
-	userLookup = NewUserCache(cacheTimeout)
-	groupLookup = NewGroupCache(cacheTimeout)
-}
-
-// VerifYield, when set, is called at scheduling points inside the ID caches
-// so that a deterministic simulator can decide which goroutine proceeds. It
-// only exists in builds with the "verif" tag.
-var VerifYield func(point string)
-
-func verifYield(point string) {
-	if f := VerifYield; f != nil {
-		f(point)
-	}
-}
+// verifYield is a no-op unless the package is built with the "verif" tag
+// (deterministic-simulation hooks, see verif_on.go).
+func verifYield(string) {}
